@@ -16,7 +16,7 @@ Inductive okind := KComm | KTimeout | KInternal | KConfig.
 
 (** [ENoCreds]: the error chain satisfies errors.Is(err, ErrArgument).
     [ERejected]: it does not, and is an ErrAuthentication chain.
-    [EOther k]: it is neither (communication, internal, ... error). *)
+    [EOther k]: it is neither (communication, timeout, internal, ... error). *)
 Inductive err := ENoCreds | ERejected | EOther (k : okind).
 
 Inductive outcome := Accepted (s : string) | Failed (e : err).
@@ -50,6 +50,23 @@ Fixpoint exec_loop (len idx : nat) (last : option err) (ca : list cauthn) : nat 
 
 Definition execute (ca : list cauthn) : nat * result := exec_loop (length ca) 0 None ca.
 
+(** the same loop, recording the authenticators whose Execute is called, in call
+    order ([log] is the record so far, newest first) *)
+Fixpoint exec_log (len idx : nat) (ca : list cauthn) (log : list cauthn) : list cauthn :=
+  match ca with
+  | [] => rev log
+  | a :: rest =>
+    match c_out a with
+    | Failed e =>
+      if (is_argument e || c_fb a) && Nat.ltb idx len
+      then exec_log len (S idx) rest (a :: log)
+      else rev (a :: log)
+    | Accepted _ => rev (a :: log)
+    end
+  end.
+
+Definition calls (ca : list cauthn) : list cauthn := exec_log (length ca) 0 ca [].
+
 (** the same loop without the index test (what the test is equivalent to) *)
 Fixpoint exec_plain (last : option err) (ca : list cauthn) : nat * result :=
   match ca with
@@ -66,13 +83,30 @@ Fixpoint exec_plain (last : option err) (ca : list cauthn) : nat * result :=
 
 (* ------------------------------------------------------------------ type level *)
 
-(** state of the remote endpoint an authenticator instance is configured with
-    (JWKS / introspection / identity-info endpoint) *)
-Inductive remote :=
-| RUp                (* answers as the protocol says *)
-| RDown              (* connection refused *)
-| RStatus            (* answers with a non-2xx status *)
-| RGarbage.          (* answers 200 with a body that is not the expected JSON *)
+(** what a remote endpoint (JWKS / introspection / identity-info / metadata) does *)
+Inductive rstate :=
+| SUp                (* answers as the protocol says *)
+| SDown              (* connection closed without an answer *)
+| SStatus            (* answers with a non-2xx status *)
+| SGarbage           (* answers 200 with a body that is not the expected JSON *)
+| SSlow.             (* does not answer before the client's time limit *)
+
+(** the endpoint an authenticator instance is configured with: one with a fixed
+    behaviour, or the one whose behaviour changes from request to request
+    (given by [q_sw] of the request at hand) *)
+Inductive remote := RFixed (s : rstate) | RSwitch.
+
+(** how jwt / oauth2_introspection find their endpoint *)
+Inductive disc :=
+| DDirect                       (* jwks_endpoint / introspection_endpoint configured *)
+| DMeta (s : rstate)            (* metadata_endpoint with a fixed URL in state s; the document names the endpoint [rem] *)
+| DMetaNoEndpoint               (* metadata document without jwks_uri / introspection_endpoint *)
+| DMetaTemplated.               (* metadata_endpoint URL contains {{ .TokenIssuer }}; documents exist for known issuers only *)
+
+(** where jwt / oauth2_introspection look for the token *)
+Inductive bsource :=
+| SrcDefault                    (* header Authorization/Bearer, query access_token, body access_token *)
+| SrcCustom.                    (* configured: header X-Token (no scheme), query access_token *)
 
 (** payload of `Authorization: Basic <payload>` *)
 Inductive basic_cred :=
@@ -81,22 +115,25 @@ Inductive basic_cred :=
 | BPair (user pass : string).              (* exactly "user:pass" *)
 
 (** what the jwt authenticator's verification says about a compact JWS that
-    jwt.ParseSigned accepts, when the JWKS endpoint is up *)
+    jwt.ParseSigned accepts, when the key set can be obtained *)
 Inductive jwt_verdict :=
 | JKeyUnknown        (* kid not (uniquely) in the key set / no key verifies *)
 | JBadSig            (* key found, signature or alg check fails *)
-| JAssertFail        (* signature fine, claims.Validate fails (issuer, time, ...) *)
+| JAssertFail        (* signature fine, claims.Validate fails under every configuration used (issuer, time) *)
+| JNarrow (sub : string)   (* signature fine; valid unless audience and scopes are asserted *)
 | JNoSubject         (* verified, but the subject id cannot be extracted *)
 | JValid (sub : string).
 
 Inductive jwt_form :=
-| NotJWS             (* jwt.ParseSigned fails: opaque token, garbage, alg outside supportedAlgorithms() *)
-| JWS (v : jwt_verdict).
+| NotJWS             (* jwt.ParseSigned fails: empty, opaque token, garbage, alg outside supportedAlgorithms() *)
+| JWSNoClaims        (* a JWS whose payload is not a JSON object *)
+| JWS (iss_known : bool) (v : jwt_verdict).   (* iss_known: the metadata server has a document for the token's iss *)
 
-(** what the introspection endpoint (when up) answers for the token *)
+(** what the introspection endpoint (when reached) answers for the token *)
 Inductive intro_answer :=
 | IInactive          (* {"active": false} *)
-| IAssertFail        (* active, but issuer/audience/time/scope assertions fail *)
+| IAssertFail        (* active, but issuer/time assertions fail *)
+| INarrow (sub : string)   (* active; valid unless audience and scopes are asserted *)
 | INoSubject         (* active and valid, no subject id in the response *)
 | IActive (sub : string).
 
@@ -104,14 +141,14 @@ Inductive intro_answer :=
     the introspection endpoint *)
 Record token := { t_jwt : jwt_form; t_intro : intro_answer }.
 
-(** what the identity-info endpoint (when up) answers for a session value *)
+(** what the identity-info endpoint (when reached) answers for a session value *)
 Inductive session :=
 | SUnknown                      (* 401 *)
 | SInactive (sub : string)      (* 200 {"sub":.., "active": false} *)
 | SNoSubject                    (* 200 {} *)
 | SGood (sub : string).         (* 200 {"sub":.., "active": true} *)
 
-(** the Authorization header *)
+(** the Authorization header field (all field lines joined with ",") *)
 Inductive auth_hdr :=
 | AHAbsent                      (* missing or empty *)
 | AHOther                       (* present, neither "Basic " nor "Bearer " prefix (other scheme, lower-case scheme, no space) *)
@@ -126,10 +163,12 @@ Inductive body_tok :=
 
 Record request := {
   q_auth : auth_hdr;
+  q_xtok : option token;        (* header X-Token (non-empty) *)
   q_query : option token;       (* query parameter access_token (non-empty) *)
   q_body : body_tok;
   q_cookie : option session;    (* cookie "session" (non-empty) *)
-  q_xsess : option session }.   (* header X-Session (non-empty) *)
+  q_xsess : option session;     (* header X-Session (non-empty) *)
+  q_sw : rstate }.              (* what the switchable endpoints do while this request is handled *)
 
 (** CompositeExtractStrategy.GetAuthData: the first strategy without error wins;
     [None] = every strategy returned an ErrArgument chain *)
@@ -146,10 +185,11 @@ Definition hdr_bearer (q : request) : option token :=
 Definition body_param (q : request) : option token :=
   match q_body q with BodyTok t => Some t | _ => None end.
 
-(** default source list of jwt and oauth2_introspection:
-    header Authorization/Bearer, query access_token, body access_token *)
-Definition bearer_token (q : request) : option token :=
-  first_some [hdr_bearer q; q_query q; body_param q].
+Definition bearer_token (src : bsource) (q : request) : option token :=
+  match src with
+  | SrcDefault => first_some [hdr_bearer q; q_query q; body_param q]
+  | SrcCustom => first_some [q_xtok q; q_query q]
+  end.
 
 (** source list the generic authenticator instances are configured with:
     cookie "session", header X-Session *)
@@ -160,12 +200,14 @@ Inductive atype :=
 | TAnonymous (sub : string)
 | TUnauthorized
 | TBasic (user pass : string)
-| TJwt (rem : remote)
-| TIntro (rem : remote)
+| TJwt (src : bsource) (d : disc) (rem : remote) (strict : bool)     (* strict: audience and scopes asserted *)
+| TIntro (src : bsource) (d : disc) (rem : remote) (strict : bool)
 | TGeneric (rem : remote) (lifespan : bool).   (* lifespan: session_lifespan configured *)
 
-(** [a_fb] is the configured allow_fallback_on_error (prototype or rule level) *)
-Record authn := { a_type : atype; a_fb : bool }.
+(** an authenticator step of a rule: the mechanism, allow_fallback_on_error of
+    the prototype, and the rule-level allow_fallback_on_error if the step has one
+    (other rule-level settings do not matter for the flag) *)
+Record authn := { a_type : atype; a_proto_fb : bool; a_over_fb : option bool }.
 
 Definition classify_basic (user pass : string) (q : request) : outcome :=
   match q_auth q with
@@ -176,87 +218,135 @@ Definition classify_basic (user pass : string) (q : request) : outcome :=
   | _ => Failed ENoCreds        (* extractor: header absent or without the "Basic " prefix *)
   end.
 
-Definition remote_failure (rem : remote) : option err :=
-  match rem with
-  | RUp => None
-  | RDown | RStatus => Some (EOther KComm)
-  | RGarbage => Some (EOther KInternal)
+Definition remote_failure (s : rstate) : option err :=
+  match s with
+  | SUp => None
+  | SDown | SStatus => Some (EOther KComm)
+  | SGarbage => Some (EOther KInternal)
+  | SSlow => Some (EOther KTimeout)
   end.
 
-Definition classify_jwt (rem : remote) (q : request) : outcome :=
-  match bearer_token q with
+Definition state_of (rem : remote) (q : request) : rstate :=
+  match rem with RFixed s => s | RSwitch => q_sw q end.
+
+(** serverMetadata(): [None] = the endpoint [rem] is what is used.  [iss] is what
+    is known about the token's issuer claim (None: the token has no readable claims) *)
+Definition discover (d : disc) (iss : option bool) : option err :=
+  match d with
+  | DDirect => None
+  | DMeta s => remote_failure s
+  | DMetaNoEndpoint => Some (EOther KInternal)
+  | DMetaTemplated => match iss with Some true => None | _ => Some (EOther KComm) end
+  end.
+
+(** [hit]: the cache lookup of this call (JWK of the kid / introspection response
+    of the token / identity payload of the session value) found an entry; the
+    endpoint is then not contacted *)
+Definition reached (hit : bool) (rem : remote) (q : request) : option err :=
+  if hit then None else remote_failure (state_of rem q).
+
+Definition jwt_answer (strict : bool) (v : jwt_verdict) : outcome :=
+  match v with
+  | JKeyUnknown | JBadSig | JAssertFail => Failed ERejected
+  | JNarrow s => if strict then Failed ERejected else Accepted s
+  | JNoSubject => Failed (EOther KInternal)
+  | JValid s => Accepted s
+  end.
+
+Definition classify_jwt (src : bsource) (d : disc) (rem : remote) (strict hit : bool) (q : request) : outcome :=
+  match bearer_token src q with
   | None => Failed ENoCreds                               (* "no JWT present" caused by the extractor errors *)
   | Some t =>
     match t_jwt t with
     | NotJWS => Failed ENoCreds                           (* "failed to parse JWT" CausedBy(ErrArgument) *)
-    | JWS v =>
-      match remote_failure rem with
+    | JWSNoClaims => Failed (EOther KInternal)            (* "failed to deserialize JWT" *)
+    | JWS known v =>
+      match discover d (Some known) with
       | Some e => Failed e
       | None =>
-        match v with
-        | JKeyUnknown | JBadSig | JAssertFail => Failed ERejected
-        | JNoSubject => Failed (EOther KInternal)
-        | JValid s => Accepted s
+        match reached hit rem q with
+        | Some e => Failed e
+        | None => jwt_answer strict v
         end
       end
     end
   end.
 
-Definition classify_intro (rem : remote) (q : request) : outcome :=
-  match bearer_token q with
+Definition intro_answer_of (strict : bool) (i : intro_answer) : outcome :=
+  match i with
+  | IInactive | IAssertFail => Failed ERejected
+  | INarrow s => if strict then Failed ERejected else Accepted s
+  | INoSubject => Failed (EOther KInternal)
+  | IActive s => Accepted s
+  end.
+
+Definition issuer_known (t : token) : option bool :=
+  match t_jwt t with JWS known _ => Some known | _ => None end.
+
+Definition classify_intro (src : bsource) (d : disc) (rem : remote) (strict hit : bool) (q : request) : outcome :=
+  match bearer_token src q with
   | None => Failed ENoCreds
   | Some t =>
-    match remote_failure rem with
+    match discover d (issuer_known t) with
     | Some e => Failed e
     | None =>
-      match t_intro t with
-      | IInactive | IAssertFail => Failed ERejected
-      | INoSubject => Failed (EOther KInternal)
-      | IActive s => Accepted s
+      match reached hit rem q with
+      | Some e => Failed e
+      | None => intro_answer_of strict (t_intro t)
       end
     end
   end.
 
-Definition classify_generic (rem : remote) (lifespan : bool) (q : request) : outcome :=
+Definition classify_generic (rem : remote) (lifespan hit : bool) (q : request) : outcome :=
   match session_value q with
   | None => Failed ENoCreds
   | Some s =>
-    match rem with
-    | RDown | RStatus => Failed (EOther KComm)
-    | RGarbage => Failed (EOther KInternal)               (* subject id cannot be extracted *)
-    | RUp =>
+    match reached hit rem q with
+    | Some e => Failed e
+    | None =>
       match s with
       | SUnknown => Failed (EOther KComm)                 (* 401 is "unexpected response code" *)
-      | SInactive sub => if lifespan then Failed ERejected else Accepted sub
+      | SInactive sub => if lifespan && negb hit then Failed ERejected else Accepted sub   (* a cached payload is not asserted again *)
       | SNoSubject => Failed (EOther KInternal)
       | SGood sub => Accepted sub
       end
     end
   end.
 
-Definition classify (t : atype) (q : request) : outcome :=
+Definition classify (t : atype) (hit : bool) (q : request) : outcome :=
   match t with
   | TAnonymous sub => Accepted sub
   | TUnauthorized => Failed ERejected
   | TBasic u p => classify_basic u p q
-  | TJwt rem => classify_jwt rem q
-  | TIntro rem => classify_intro rem q
-  | TGeneric rem ls => classify_generic rem ls q
+  | TJwt src d rem strict => classify_jwt src d rem strict hit q
+  | TIntro src d rem strict => classify_intro src d rem strict hit q
+  | TGeneric rem ls => classify_generic rem ls hit q
   end.
+
+(** WithConfig: the rule-level allow_fallback_on_error, if present, replaces the prototype's *)
+Definition configured_fb (a : authn) : bool :=
+  match a_over_fb a with Some b => b | None => a_proto_fb a end.
 
 (** IsFallbackOnErrorAllowed(): anonymous and unauthorized answer false whatever is configured *)
 Definition fallback_allowed (a : authn) : bool :=
   match a_type a with
   | TAnonymous _ | TUnauthorized => false
-  | _ => a_fb a
+  | _ => configured_fb a
   end.
 
-Definition to_chain (q : request) (a : authn) : cauthn :=
-  {| c_out := classify (a_type a) q; c_fb := fallback_allowed a |}.
+(** the chain as the composite sees it on request [q]; [hits] are the cache
+    lookups of the calls, by position (absent = no entry found) *)
+Fixpoint to_chain (q : request) (ca : list authn) (hits : list bool) : list cauthn :=
+  match ca with
+  | [] => []
+  | a :: rest =>
+    let '(h, hs) := match hits with [] => (false, []) | h :: hs => (h, hs) end in
+    {| c_out := classify (a_type a) h q; c_fb := fallback_allowed a |} :: to_chain q rest hs
+  end.
 
 (** the real chain on a request *)
-Definition authenticate (ca : list authn) (q : request) : nat * result :=
-  execute (map (to_chain q) ca).
+Definition authenticate (ca : list authn) (hits : list bool) (q : request) : nat * result :=
+  execute (to_chain q ca hits).
 
 (* ------------------------------------------------------------------ decidable equalities for the evaluator *)
 
